@@ -19,6 +19,7 @@ import numpy as np
 from vf.common import Plan, crandn, held, violated, inconclusive, rng_for, nrm, pick
 
 SPEC = {
+    "deciding_monitors": ["fn:abrm", "fn:abrm_nd", "fn:abrm_hp", "fn:abrm_ptx", "fn:blochsim", "fn:b2rf", "fn:b2a"],
     "rule": ("cases = (simulator, RF length 1..256, amplitude class small..>pi per sample, "
              "gradient class, 1-3 spatial dims, 1-20 positions; ptx: 1-3 coils, 1x1..3x3 "
              "grids, with/without fmap and sens) and (beta polynomial: every ptype x ftype of "
